@@ -22,7 +22,7 @@ TS_CHOICES = ('2015-05-12T15:50:38Z', '1999-12-31T23:59:59Z')
 MAP_KEYS = ('k', 'kk')
 UNKNOWN_KEY = 'zz'
 UNKNOWN_TAG = 'zz_unknown'
-STRING_SAMPLES = {'[a-z]+': 'a'}
+STRING_SAMPLES = {'[a-z]+': 'a', '\\bab\\b': 'ab', '[A-Z]:\\\\[a-z]+': 'C:\\a', '\\d{2}': '12', 'a|bc*': 'a'}
 
 
 def unalias(dt):
